@@ -60,7 +60,7 @@ theorem only_the_symbol_table_is_written (s : Site) (h : s ∈ Gen.recvWrites) :
   (allAllowed_iff allowedWrites Gen.recvWrites).mp recv_writes_checked s h
 
 /-- non-vacuity: the table does contain the symbol table's writes -/
-example : (Gen.recvWrites.filter fun s => s.type == "*AnonSymbolExpr").length = 3 := by decide +kernel
+example : 0 < (Gen.recvWrites.filter fun s => s.type == "*AnonSymbolExpr").length := by decide +kernel
 
 /-- the check is not trivially true: a memo stored in a node by `Value` is rejected -/
 example : allAllowed allowedWrites [⟨"hclsyntax/expression.go", "*SplatExpr", "Value", "Item.resultTys", "assign"⟩] = false := by
